@@ -43,6 +43,11 @@ class C16(Prop):
     def gen(self, rng, tier):
         n = rng.choice([2, 3, 5, 8, 20, 60, 400 if tier == "thorough" else 120])
         intraday = rng.random() < 0.35
+        long_history = rng.random() < 0.06
+        if long_history:
+            # more than three years of daily observations with the deepest drawdown early on: any metric computed on a
+            # trailing window instead of the whole history differs
+            n, intraday = rng.choice([800, 1000, 1300]), False
         times, t = [], T0 + rng.randint(0, 500) * DAY
         if intraday:
             # any time of day for the first observation (the elapsed whole days then differ from the date difference)
@@ -58,8 +63,11 @@ class C16(Prop):
             times = sorted(set(times))
         v = rng.uniform(0.5, 500)
         vals = []
-        for _ in times:
+        crash_at = rng.randint(5, max(6, n // 8)) if long_history else None
+        for i, _ in enumerate(times):
             v *= math.exp(rng.gauss(0.0003, rng.choice([0.002, 0.01, 0.03])))
+            if crash_at is not None and crash_at <= i < crash_at + 4:
+                v *= 0.8
             vals.append(fr(F(v)))
         bench = None
         if rng.random() < 0.4:
@@ -69,9 +77,12 @@ class C16(Prop):
                 b *= math.exp(rng.gauss(0.0002, 0.008))
                 bench.append(fr(F(b)))
         corrupt = None
-        if rng.random() < 0.3:
+        if rng.random() < 0.3 and not long_history:
             corrupt = rng.choice(["nan", "zero", "negative", "duplicate", "unsorted", "nondatetime", "nat"])
-        return dict(times=times, values=vals, bench=bench, rf=fr(F(round(rng.uniform(0, 0.05), 4))),
+        only = None
+        if long_history:
+            bench, only = None, ["cagr", "cumret", "maxdd", "calmar"]
+        return dict(only=only, times=times, values=vals, bench=bench, rf=fr(F(round(rng.uniform(0, 0.05), 4))),
                     scale=fr(F(rng.choice([0.001, 2.0, 1000.0, 7.5]))), q=rng.choice(["1/40", "1/20", "1/2", "1/10"]),
                     corrupt=corrupt, intraday=intraday)
 
@@ -146,6 +157,9 @@ class C16(Prop):
                    ("calmar", lambda x: x.calmar_ratio(rf), case["rf"]), ("martinr", lambda x: x.martin_ratio(rf), case["rf"])]
         if bench is not None:
             metrics += [("te", lambda x: x.tracking_error(bench), None), ("ir", lambda x: x.information_ratio(bench), None)]
+        if case.get("only"):
+            # long histories: the metrics whose exact evaluation stays cheap (no sums over thousands of rationals)
+            metrics = [m for m in metrics if m[0] in case["only"]]
         got = {}
         for name, fn, arg in metrics:
             try:
